@@ -1280,7 +1280,7 @@ fn part_iso(rng: &mut Rng, rep: &mut Report, cw: &mut CaseWriter, gr: &mut Group
             if sorted_hashes(p.get_heads()) != sorted_hashes(dm.get_heads()) || ra != rb {
                 let reloaded = Automerge::load(&dm.save()).map(|l| render_reads(&l, &cs, None) == ra).unwrap_or(false);
                 let cls = if has_scoped_splice_delete(&calls, &|o| dm.object_type(o).map(|t| t == ObjType::Text).unwrap_or(false)) { "after-scoped-splice-delete" } else { "other" };
-                rep.fail(&props, &format!("txn|iso|not-merge|{}", cls), &format!("after transaction_at + commit the document differs from the merge of the created change into the prior state (a saved and reloaded copy of the document agrees with the merge: {})", reloaded),
+                rep.fail(&["C29", "C02"], &format!("txn|iso|not-merge|{}", cls), &format!("after transaction_at + commit the document differs from the merge of the created change into the prior state (a saved and reloaded copy of the document agrees with the merge: {})", reloaded),
                     json!({"program": pi, "log": log, "merge": first_diff_line(&ra, &rb).0, "document": first_diff_line(&ra, &rb).1}));
             }
         } else {
@@ -1340,7 +1340,7 @@ fn part_iso(rng: &mut Rng, rep: &mut Report, cw: &mut CaseWriter, gr: &mut Group
             if hd1 != hd2 || ra != rb {
                 let reloaded = AutoCommit::load(&d.save()).map(|l| render_reads(&l, &cs, None) == ra).unwrap_or(false);
                 let cls = if has_scoped_splice_delete(&calls, &|o| d.object_type(o).map(|t| t == ObjType::Text).unwrap_or(false)) || has_scoped_splice_delete(&later_calls, &|o| d.object_type(o).map(|t| t == ObjType::Text).unwrap_or(false)) { "after-scoped-splice-delete" } else { "other" };
-                rep.fail(&props, &format!("txn|iso|integrate-not-merge|{}", cls), &format!("after integrate the document differs from the merge of the isolated changes into the non-isolated state (a saved and reloaded copy of the document agrees with the merge: {})", reloaded),
+                rep.fail(&["C29", "C02"], &format!("txn|iso|integrate-not-merge|{}", cls), &format!("after integrate the document differs from the merge of the isolated changes into the non-isolated state (a saved and reloaded copy of the document agrees with the merge: {})", reloaded),
                     json!({"program": pi, "log": log, "merge": first_diff_line(&ra, &rb).0, "document": first_diff_line(&ra, &rb).1}));
             }
             rep.count("iso_integrate_compared");
@@ -1392,14 +1392,14 @@ fn part_iso(rng: &mut Rng, rep: &mut Report, cw: &mut CaseWriter, gr: &mut Group
                     chs, chs, coq_table(&table), coq_actor(base.get_actor()), m.hs(&hs), calls_coq(&o.calls), ai, af
                 )
             };
-            let kind = if has_scoped_splice_delete(&o.calls, &|id| o.cands.iter().any(|c| c.0 == *id && c.1 == ObjType::Text)) { "iso-after-scoped-splice-delete" } else { "iso" };
-            gr.add(cw, defs, vec![(term, json!({"kind": kind, "props": ["C29"], "program": pi, "manual": manual, "log": log}))]);
+            gr.add(cw, defs, vec![(term, json!({"kind": "iso", "props": ["C29"], "program": pi, "manual": manual, "log": log}))]);
             rep.model_cases += 1;
         }
     }
 }
 
-/// the open defect around isolate / merge / isolate / integrate (patch log of AutoCommit)
+/// regression probe (repaired by 982e3555b): isolate / merge / isolate / integrate with an actor that sorts first
+/// arriving through the merge; also checks the result (k = 5 from the isolated change, j = 6 from the merge)
 fn probe_known_integrate_panic(rep: &mut Report) {
     let r = guard(|| {
         let mut d = AutoCommit::new().with_actor(ActorId::from(vec![5u8, 0]));
@@ -1415,8 +1415,14 @@ fn probe_known_integrate_panic(rep: &mut Report) {
         d.merge(&mut e).unwrap();
         d.isolate(&[h1]);
         d.integrate();
+        format!("{:?} {:?}", d.get(ROOT, "k").map(|o| o.map(|x| x.0.to_string())).map_err(|_| ()), d.get(ROOT, "j").map(|o| o.map(|x| x.0.to_string())).map_err(|_| ()))
     });
     rep.count("probe_integrate");
+    if let Ok(s) = &r {
+        if s != "Ok(Some(\"5\")) Ok(Some(\"6\"))" {
+            rep.fail(&["C29"], "txn|probe-integrate|wrong-result", &format!("after isolate / merge / isolate / integrate the document reads k, j = {}", s), json!({}));
+        }
+    }
     if let Err(p) = r {
         rep.fail(&["C29", "C37"], &format!("panic|txn|isolate-merge-integrate|{}", p.signature()),
             &format!("isolate(h1); edit; commit; merge(other); isolate(h1); integrate() panicked: {} at {}", p.message, p.location),
@@ -1424,9 +1430,9 @@ fn probe_known_integrate_panic(rep: &mut Report) {
     }
 }
 
-/// increment inside a transaction scoped to heads at which a register holds a counter and a concurrent
-/// non-counter, both deleted since: add_succ_with_undo exposes the counter as top op although it is not visible
-/// in the document, and reset_top's assert!(v) fires
+/// regression probe (repaired by 9da869ded): increment inside a transaction scoped to heads at which a register
+/// holds a counter and a concurrent non-counter, both deleted since (add_succ_with_undo exposed the superseded
+/// counter as top op and reset_top's assert!(v) fired); afterwards memory and a reloaded copy must agree
 fn probe_scoped_increment(rep: &mut Report) {
     let r = guard(|| {
         let mut a = AutoCommit::new().with_actor(ActorId::from(vec![1u8]));
@@ -1444,12 +1450,19 @@ fn probe_scoped_increment(rep: &mut Report) {
         let mut m: Automerge = a.document().clone();
         let mut tx = m.transaction_at(PatchLog::inactive(), &hs).unwrap();
         let r = guard(|| tx.increment(ROOT, "a", 3).map_err(|e| e.to_string()));
-        std::mem::forget(tx); // the op set is half-edited after a panic: do not roll back
-        r
+        if r.is_err() {
+            std::mem::forget(tx); // the op set is half-edited after a panic: do not roll back
+            return r.map(|_| String::new());
+        }
+        tx.commit();
+        let re = Automerge::load(&m.save()).map(|l| format!("{:?}", l.get_all(ROOT, "a").map(|v| v.len()).map_err(|_| ()))).unwrap_or_else(|e| e.to_string());
+        let mem = format!("{:?}", m.get_all(ROOT, "a").map(|v| v.len()).map_err(|_| ()));
+        Ok(if mem == re { String::new() } else { format!("memory {} reloaded {}", mem, re) })
     });
     rep.count("probe_scoped_increment");
     match r {
-        Ok(Ok(_)) => {}
+        Ok(Ok(s)) if s.is_empty() => {}
+        Ok(Ok(s)) => rep.fail(&["C29", "C02"], "txn|probe-scoped-increment|memory-differs-from-reload", &s, json!({})),
         Ok(Err(p)) | Err(p) => {
             rep.fail(&["C29", "C37"], &format!("panic|txn|call|scoped|increment|{}", p.signature()),
                 &format!("increment in a transaction scoped to heads where the register held a counter and a concurrent non-counter that were both deleted later: {} at {}", p.message, p.location),
@@ -1458,8 +1471,8 @@ fn probe_scoped_increment(rep: &mut Report) {
     }
 }
 
-/// splice / splice_text deletions (and delete on a text) in a transaction scoped to older heads do not recompute
-/// the top flags: when the deleted value had won a conflict against a value the scope does not cover, the
+/// regression probe (repaired by 32c572db3): splice / splice_text deletions (and delete on a text) in a transaction
+/// scoped to older heads did not recompute the top flags: when the deleted value had won a conflict against a value the scope does not cover, the
 /// survivor stays without a top flag — get() / values() miss it although length() and list_range() show it
 fn probe_scoped_splice_delete(rep: &mut Report) {
     let r = guard(|| {
